@@ -15,7 +15,9 @@
 //! (the crate ignores the tagging mode of the header).  `TAGS_DUMP=1` prints all stages to stderr.
 //! answer   `ok <names in emitted order> <TAG constant per emitted component> <EXTENDED_AFTER_FIELD> <TAG of the type>`
 //!          | `err other` (stage 2 rejects the stage-1 source) | `panic` | `abort` (only `set!`/`seq!`:
-//!          the request runs in a child process)
+//!          the request runs in a child process; since the repair of `TagResolver` — a stack of the
+//!          names being resolved — no request is known to abort, the reference cycles that did are
+//!          kept as regression corpus and must answer like any other request)
 //!
 //! Pipeline (exactly what a user of the crate gets):
 //!   stage 1 (converter / `asn_to_rust!`): module text -> `Tokenizer` -> `Model::try_from` ->
